@@ -49,7 +49,9 @@ def make_records(field, value):
     elif field == "pattern":
         r1["pattern"] = value
     # plain records sort both before and after the perturbed one, whatever its prefix
-    recs = [mrec(r1["prefix"], r1["uri_prefix"], r1["psyn"], r1["usyn"], r1["pattern"]), mrec("p2", "http://u2/"), mrec("~z", "http://u3/"), mrec("!0", "http://u0/")]
+    recs = [mrec(r1["prefix"], r1["uri_prefix"], r1["psyn"], r1["usyn"], r1["pattern"]), mrec("p2", "http://u2/"), mrec("~z", "http://u3/"), mrec("!0", "http://u0/"),
+            # a URI prefix that starts with another record's CURIE prefix and a colon is still an opaque string
+            mrec("urn", "http://u4/"), mrec("p5", "urn:five:"), mrec("p6", "p2:x/")]
     return recs
 
 
